@@ -54,7 +54,7 @@ func (o *Obligation) smt(withModel bool) string {
 	if o.sc.native {
 		b.WriteString(o.sc.nativePrefix(o.mark, o.hide, npf))
 	} else {
-		b.WriteString(o.sc.prefixHiding(o.mark, o.hide, npf))
+		b.WriteString(o.sc.prefixHiding(o.mark, o.hide, npf, o.Kind == "frame" && strings.Contains(o.Name, ":gs:")))
 	}
 	b.WriteString("\n(assert " + o.cond + ")\n(check-sat)\n")
 	if withModel && len(o.getvals) > 0 {
